@@ -453,10 +453,12 @@ func analyzeFunc(
 		err = fmt.Errorf("analyzing function %s at %s:%d.%d: %w", funcDecl.Name, pos.Filename, pos.Line, pos.Column, err)
 	}
 
+	verifYield(index)
 	funcChan <- functionResult{
 		triggers: funcTriggers,
 		err:      err,
 		index:    index,
 		funcDecl: funcDecl,
 	}
+	verifSent(index)
 }
